@@ -193,8 +193,10 @@ class Inbound:
                     if self.incremental and self.serial != soa.serial:
                         raise dns.exception.FormError("unexpected end of IXFR sequence")
                     self.txn.replace(name, rdataset)
-                    self.txn.commit()
-                    self.txn = None
+                    # The transaction is committed when the context manager
+                    # exits without an exception, so that anything that is found
+                    # to be wrong after this point (e.g. surplus records after the
+                    # final SOA, or a missing TSIG) leaves the zone untouched.
                     self.done = True
                 else:
                     #
@@ -260,7 +262,12 @@ class Inbound:
 
     def __exit__(self, exc_type, exc_val, exc_tb):
         if self.txn:
-            self.txn.rollback()
+            txn = self.txn
+            self.txn = None
+            if self.done and exc_type is None:
+                txn.commit()
+            else:
+                txn.rollback()
         return False
 
 
